@@ -1,0 +1,81 @@
+//go:build verif
+
+package fasthttp
+
+// Read-only accessors to the HostClient wait queue and the PipelineClient queues for the verification
+// harness under /verif (properties C18, C38, C04). Compiled only with -tags verif; they add no behaviour.
+
+// VerifWantConn is a wantConn (opaque to the harness, used as an identity).
+type VerifWantConn = wantConn
+
+// VerifWaitQueue returns the wantConns in c.connsWait in queue order (head[headPos:] followed by tail),
+// including entries that are no longer waiting.
+func (c *HostClient) VerifWaitQueue() []*VerifWantConn {
+	c.connsLock.Lock()
+	defer c.connsLock.Unlock()
+	q := c.connsWait
+	if q == nil {
+		return nil
+	}
+	var out []*VerifWantConn
+	if q.headPos < len(q.head) {
+		out = append(out, q.head[q.headPos:]...)
+	}
+	out = append(out, q.tail...)
+	return out
+}
+
+// VerifWaitQueueLen returns c.connsWait.len().
+func (c *HostClient) VerifWaitQueueLen() int {
+	c.connsLock.Lock()
+	defer c.connsLock.Unlock()
+	if c.connsWait == nil {
+		return 0
+	}
+	return c.connsWait.len()
+}
+
+// VerifWaiting reports w.waiting().
+func VerifWaiting(w *VerifWantConn) bool { return w.waiting() }
+
+// VerifWantConnQueue wraps a wantConnQueue for data-structure tests.
+type VerifWantConnQueue struct{ q wantConnQueue }
+
+// VerifNewWantConn returns a fresh waiting wantConn.
+func VerifNewWantConn() *VerifWantConn { return &wantConn{ready: make(chan struct{}, 1)} }
+
+// VerifMarkDone makes w no longer waiting (as tryDeliver/cancel do by closing ready).
+func VerifMarkDone(w *VerifWantConn) { close(w.ready) }
+
+func (v *VerifWantConnQueue) Len() int                  { return v.q.len() }
+func (v *VerifWantConnQueue) PushBack(w *VerifWantConn) { v.q.pushBack(w) }
+func (v *VerifWantConnQueue) PopFront() *VerifWantConn  { return v.q.popFront() }
+func (v *VerifWantConnQueue) PeekFront() *VerifWantConn { return v.q.peekFront() }
+func (v *VerifWantConnQueue) ClearFront() bool          { return v.q.clearFront() }
+
+// Shape returns (len(head), headPos, len(tail)).
+func (v *VerifWantConnQueue) Shape() (int, int, int) {
+	return len(v.q.head), v.q.headPos, len(v.q.tail)
+}
+
+// VerifPipelineQueueLens returns, per connection client of c, (len(chW), len(chR), cap(chW)); a connection client
+// without channels reports (0, 0, 0).
+func (c *PipelineClient) VerifPipelineQueueLens() [][3]int {
+	c.connClientsLock.Lock()
+	defer c.connClientsLock.Unlock()
+	var out [][3]int
+	for _, cc := range c.connClients {
+		cc.chLock.Lock()
+		chs := cc.chs
+		cc.chLock.Unlock()
+		if chs == nil {
+			out = append(out, [3]int{})
+			continue
+		}
+		out = append(out, [3]int{len(chs.chW), len(chs.chR), cap(chs.chW)})
+	}
+	return out
+}
+
+// VerifClientConn is the pooled connection record returned by AcquireConn.
+type VerifClientConn = clientConn
